@@ -663,6 +663,21 @@ func Grammar(tier string, v2 bool) []GrammarItem {
 			u.Prune(user, un)
 			add(GrammarItem{ID: "ns-custom-many", Family: "ns", Desc: "four custom typerefs in two packages used as fields, array items, map values, union members, default, key, action parameter and return", U: u, V2Only: true, CustomFiles: customFilesFor(u)})
 		}
+		if v2 {
+			// a custom typeref dragged into conflictResolution by a namespace cycle: its hand-written file lives there
+			u := NewUniverse("g")
+			t := u.AddNS("g.ca", &Type{Kind: Typeref, Name: "Tok", Elem: P(String), Custom: true})
+			free := u.AddNS("g.cc", &Type{Kind: Typeref, Name: "Free", Elem: P(Int64), Custom: true})
+			x := u.AddNS("g.ca", rec("X"))
+			y := u.AddNS("g.cb", rec("Y"))
+			z := u.AddNS("g.ca", rec("Z", Req("tok", t), Opt("toks", ArrayOf(t))))
+			x.Fields = []*Field{Opt("y", y)}
+			y.Fields = []*Field{Opt("z", z), Opt("x", x)}
+			user := u.AddNS("g.cu", rec("User", Req("x", x), Opt("t", t), Opt("f", free)))
+			u.Prune(user)
+			add(GrammarItem{ID: "ns-custom-on-cycle", Family: "ns", Desc: "a custom typeref used by a record on a namespace cycle (its file sits in conflictResolution) next to one outside the cycle", U: u, V2Only: true,
+				CustomFiles: map[string]string{"conflictResolution/Tok.go": customTyperefFile("conflictresolution", "Tok", String), "g/cc/Free.go": customTyperefFile("cc", "Free", Int64)}})
+		}
 		for _, w := range []string{"lower", "Mixed_Case", "ALLCAPS", "X", "Type", "Error", "String"} {
 			w := w
 			if !full && !(w == "lower" || w == "Mixed_Case" || w == "Error") {
